@@ -288,9 +288,14 @@ def replay_primitive(sg):
     if sg is None:
         return {"reproduced": False, "note": "no group"}
     letters = _chiral_probe(sg)
-    atoms = probe(sg, [(letters[-1], 14, None)])
-    a = analyze(atoms)
+    # the first probe that is detected as the wanted group (a single orbit with round parameters can have a supergroup's symmetry)
+    for atoms in (probe(sg, [(letters[-1], 14, None)]), pinned_probe(sg, npin=1), pinned_probe(sg, npin=2), pinned_probe(sg, npin=3)):
+        a = analyze(atoms)
+        if int(a.get_space_group_number()) == sg:
+            break
     try:
+        if int(a.get_space_group_number()) != sg:
+            return {"reproduced": False, "note": "no probe of group %d is detected as such" % sg, "probe": {"sg": sg}}
         conv = a.get_conventional_system()
         prim = a.get_primitive_system()
         k = len(tabvc.load_tables()[1][sg]["translations"]) + 1
